@@ -13,9 +13,9 @@ if copy:
     work = "/root/scratch/seed-" + sid
     subprocess.run("mkdir -p /root/scratch && rsync -a --delete --exclude .git /repo/ %s/ && cd %s && patch -p1 -s < %s/patch.diff" % (work, work, d), shell=True, check=True)
     try:
-        p = subprocess.run(["/verif/vcheck", prop, tier], cwd="/verif", stdout=subprocess.PIPE, stderr=subprocess.STDOUT, env=dict(os.environ, VERIF_REPO=work))
+        p = subprocess.run(["/verif/vcheck", prop, tier], cwd="/verif", stdout=subprocess.PIPE, stderr=subprocess.STDOUT, env=dict(os.environ, VERIF_REPO=work, VERIF_EVIDENCE_DIR="/root/scratch/seed-ev-" + sid, VERIF_REPLAY_DIR="/root/scratch/seed-rp-" + sid))
     finally:
-        subprocess.run("rm -rf " + work, shell=True)
+        subprocess.run("rm -rf %s /root/scratch/seed-ev-%s /root/scratch/seed-rp-%s" % (work, sid, sid), shell=True)
 else:
     assert subprocess.run("git -C /repo status --porcelain", shell=True, stdout=subprocess.PIPE).stdout.strip() == b"", "/repo not clean"
     subprocess.run("git -C /repo apply --whitespace=nowarn %s/patch.diff" % d, shell=True, check=True)
